@@ -159,6 +159,17 @@ class FakeTransport(asyncio.Transport):
     def peer_reset(self):
         self._fatal(ConnectionResetError("connection reset by peer"), "peer_reset")
 
+    # the peer stops reading (half-open link, full send buffer): writes are still taken, drain() blocks
+    def pause(self):
+        if not self.lost and not getattr(self, "paused", False):
+            self.paused = True
+            self.protocol.pause_writing()
+
+    def resume(self):
+        if not self.lost and getattr(self, "paused", False):
+            self.paused = False
+            self.protocol.resume_writing()
+
 
 class FakeDatagramTransport(asyncio.DatagramTransport):
     def __init__(self, net, u, protocol, port):
